@@ -91,6 +91,17 @@ def is_convex_ccw(P, tol=1e-12):
     return True
 
 
+def is_convex_ccw_rel(P, min_turn=1e-6):
+    """Every corner is a strict left turn of at least ~min_turn radians, whatever the size of the face."""
+    k = len(P)
+    for i in range(k):
+        a, b, c = P[i], P[(i + 1) % k], P[(i + 2) % k]
+        L = np.linalg.norm(b - a) * np.linalg.norm(c - b)
+        if L == 0 or np.dot(np.cross(a, b), c) <= min_turn * L:
+            return False
+    return True
+
+
 def point_in_convex(P, q, tol=0.0):
     k = len(P)
     for i in range(k):
